@@ -3,13 +3,628 @@ package fakeredis
 import (
 	"bufio"
 	"bytes"
+	"fmt"
+	"strconv"
+	"strings"
+	"sync"
 )
 
-// Replication-source role (placeholder until built): see DESIGN.md §2.1 "Source role".
+// Replication-source role: see DESIGN.md §2.1 "Source role" and README.md.
+//
+// Offsets are Redis' own: master_repl_offset = number of stream bytes produced so far, the
+// stream byte number k is the k-th byte ever produced, a replica that processed n bytes asks for
+// `PSYNC <id> n+1`.  The admission rule is a transcription of masterTryPartialResynchronization
+// (replication.c): accept iff (id == replid, or id == replid2 and offset <= second_replid_offset)
+// and a backlog exists and backlog_off <= offset <= backlog_off + histlen.
 
-type Source struct{}
+// SourceConfig is the replication identity, history and dataset of a source double.
+type SourceConfig struct {
+	ReplID             string // master_replid
+	ReplID2            string // master_replid2 ("" = forty zeros)
+	SecondReplidOffset int64  // second_replid_offset; forced to -1 when ReplID2 is empty / all zeros and this is 0
+	MasterReplOffset   int64  // master_repl_offset: offset of the last stream byte produced so far
+	// Backlog: the bytes numbered BacklogOff .. BacklogOff+len(Backlog)-1.  Must end at
+	// MasterReplOffset (BacklogOff+len(Backlog) == MasterReplOffset+1).  Backlog == nil and
+	// BacklogOff == 0 means an allocated but empty backlog (backlog_off = MasterReplOffset+1).
+	BacklogOff int64
+	Backlog    []byte
+	NoBacklog  bool // no backlog allocated at all: every PSYNC is answered with a full resync
+	// Snapshot served on FULLRESYNC: RDBFunc(master_repl_offset at that moment) when set, else RDB.
+	RDB     []byte
+	RDBFunc func(masterReplOffset int64) []byte
+	// Heart-beats ("\n") written before the PSYNC reply line / between the reply line and "$<len>".
+	HeartbeatsBeforeReply int
+	HeartbeatsBeforeRDB   int
+	// Stamp, when set, is called (with the server lock held) for every PSYNC; the value is stored
+	// in the event (harnesses use one shared counter to order events of several doubles).
+	Stamp func() int64
+}
 
-func (src *Source) stop()                {}
-func (src *Source) info(b *bytes.Buffer) {}
+// PsyncEvent is one PSYNC request and its answer.
+type PsyncEvent struct {
+	Idx        int
+	ReqSeq     int64 // request sequence number of the PSYNC on this server
+	Conn       int64
+	ReplID     string // as asked
+	Offset     int64  // as asked (the NEXT byte the replica wants); -1 when not a number
+	RawOffset  string
+	Continue   bool   // true: +CONTINUE, false: +FULLRESYNC
+	Reply      string // reply line without "+" / CRLF
+	Reason     string // why: "ok", "replid-unknown", "replid2-beyond-second-offset", "no-backlog", "offset-before-backlog", "offset-after-backlog", "bad-offset"
+	StartAt    int64  // number of the first stream byte sent on this connection after the answer
+	RDBLen     int    // FULLRESYNC: length of the snapshot served
+	CapaPsync2 bool
+	Stamp      int64
+	// the source's state when it answered
+	MasterReplID       string
+	MasterReplID2      string
+	SecondReplidOffset int64
+	MasterReplOffset   int64
+	BacklogOff         int64
+	BacklogHistLen     int64
+}
+
+func (e PsyncEvent) String() string {
+	return fmt.Sprintf("PSYNC %s %s -> +%s [%s; replid=%s replid2=%s second=%d mro=%d backlog=%d+%d]", e.ReplID, e.RawOffset, e.Reply, e.Reason,
+		short(e.MasterReplID), short(e.MasterReplID2), e.SecondReplidOffset, e.MasterReplOffset, e.BacklogOff, e.BacklogHistLen)
+}
+
+func short(id string) string {
+	if len(id) > 8 {
+		return id[:8]
+	}
+	return id
+}
+
+// AckEvent is the newest REPLCONF ACK of a replica connection.
+type AckEvent struct {
+	Conn   int64
+	Offset int64
+	Count  int
+}
+
+type replConnInfo struct {
+	listeningPort string
+	capaEOF       bool
+	capaPsync2    bool
+}
+
+type replSess struct {
+	c        *conn
+	epoch    int
+	full     bool
+	line     string
+	hbReply  int
+	hbRDB    int
+	rdb      []byte
+	next     int64 // number of the next stream byte to send
+	sent     int64 // payload bytes (snapshot + stream) sent so far
+	dropAt   int64 // close the connection once `sent` reaches it; -1 = never
+	dropNow  bool
+	eventIdx int
+}
+
+type Source struct {
+	srv *Server
+
+	mu         sync.Mutex
+	replid     string
+	replid2    string
+	secondOff  int64
+	mro        int64
+	histOff    int64 // number of hist[0]
+	hist       []byte
+	backlogOff int64
+	noBacklog  bool
+	rdb        []byte
+	rdbFunc    func(int64) []byte
+	hbReply    int
+	hbRDB      int
+	stamp      func() int64
+
+	wake     chan struct{}
+	stopped  bool
+	epoch    int
+	log      []PsyncEvent
+	conns    map[*conn]*replConnInfo
+	pending  map[*conn]*replSess
+	replicas map[*conn]*replSess
+	acks     map[int64]*AckEvent
+	armDrop  int64 // DropReplicaAfter for the next replica; -1 = none
+	sentAll  int64 // total payload bytes sent to replicas
+}
+
+const zeroReplID = "0000000000000000000000000000000000000000"
+
+// EnableSource gives the server the replication-source role.  Call before the tool connects.
+func (s *Server) EnableSource(cfg SourceConfig) *Source {
+	src := &Source{srv: s, wake: make(chan struct{}), conns: map[*conn]*replConnInfo{}, pending: map[*conn]*replSess{},
+		replicas: map[*conn]*replSess{}, acks: map[int64]*AckEvent{}, armDrop: -1}
+	src.apply(cfg)
+	s.mu.Lock()
+	s.source = src
+	s.mu.Unlock()
+	return src
+}
+
+// Source returns the source role (nil when not enabled).
+func (s *Server) Source() *Source {
+	s.mu.Lock()
+	defer s.mu.Unlock()
+	return s.source
+}
+
+func (src *Source) apply(cfg SourceConfig) {
+	if cfg.ReplID == "" {
+		panic("fakeredis: SourceConfig.ReplID is empty")
+	}
+	if cfg.ReplID2 == "" {
+		cfg.ReplID2 = zeroReplID
+	}
+	if cfg.ReplID2 == zeroReplID && cfg.SecondReplidOffset == 0 {
+		cfg.SecondReplidOffset = -1
+	}
+	if cfg.Backlog == nil && cfg.BacklogOff == 0 {
+		cfg.BacklogOff = cfg.MasterReplOffset + 1
+	}
+	if cfg.BacklogOff+int64(len(cfg.Backlog)) != cfg.MasterReplOffset+1 {
+		panic(fmt.Sprintf("fakeredis: inconsistent SourceConfig: backlog %d+%d does not end at master_repl_offset %d",
+			cfg.BacklogOff, len(cfg.Backlog), cfg.MasterReplOffset))
+	}
+	src.replid, src.replid2, src.secondOff = cfg.ReplID, cfg.ReplID2, cfg.SecondReplidOffset
+	src.mro = cfg.MasterReplOffset
+	src.histOff, src.backlogOff = cfg.BacklogOff, cfg.BacklogOff
+	src.hist = append([]byte{}, cfg.Backlog...)
+	src.noBacklog = cfg.NoBacklog
+	src.rdb, src.rdbFunc = cfg.RDB, cfg.RDBFunc
+	src.hbReply, src.hbRDB = cfg.HeartbeatsBeforeReply, cfg.HeartbeatsBeforeRDB
+	src.stamp = cfg.Stamp
+}
+
+// Reconfigure replaces identity, history and dataset (a failover / restart of the source seen at
+// the same address).  Every attached replica is disconnected.  The PSYNC log is kept.
+func (src *Source) Reconfigure(cfg SourceConfig) {
+	src.mu.Lock()
+	src.apply(cfg)
+	src.epoch++
+	src.dropAllLocked()
+	src.broadcastLocked()
+	src.mu.Unlock()
+}
+
+func (src *Source) broadcastLocked() {
+	close(src.wake)
+	src.wake = make(chan struct{})
+}
+
+func (src *Source) dropAllLocked() {
+	for _, r := range src.replicas {
+		r.dropNow = true
+	}
+}
+
+func (src *Source) stop() {
+	src.mu.Lock()
+	src.stopped = true
+	src.broadcastLocked()
+	src.mu.Unlock()
+}
+
+// Append adds live stream bytes: master_repl_offset advances, the backlog grows, attached
+// replicas are served.  Returns the new master_repl_offset.
+func (src *Source) Append(b []byte) int64 {
+	src.mu.Lock()
+	defer src.mu.Unlock()
+	src.hist = append(src.hist, b...)
+	src.mro += int64(len(b))
+	src.broadcastLocked()
+	return src.mro
+}
+
+// TrimBacklog drops the backlog's head: afterwards the first byte it holds is number `first`
+// (clamped to [current backlog_off, master_repl_offset+1]).  Bytes already owed to attached
+// replicas are still delivered (they sit in the replicas' output buffers in a real master).
+func (src *Source) TrimBacklog(first int64) {
+	src.mu.Lock()
+	defer src.mu.Unlock()
+	if first > src.mro+1 {
+		first = src.mro + 1
+	}
+	if first > src.backlogOff {
+		src.backlogOff = first
+	}
+}
+
+// SetRDB replaces the snapshot served by later FULLRESYNCs.
+func (src *Source) SetRDB(rdb []byte) {
+	src.mu.Lock()
+	src.rdb = rdb
+	src.mu.Unlock()
+}
+
+// MasterReplOffset returns master_repl_offset.
+func (src *Source) MasterReplOffset() int64 {
+	src.mu.Lock()
+	defer src.mu.Unlock()
+	return src.mro
+}
+
+// Backlog returns (backlog_off, histlen).
+func (src *Source) Backlog() (int64, int64) {
+	src.mu.Lock()
+	defer src.mu.Unlock()
+	return src.backlogOff, src.mro - src.backlogOff + 1
+}
+
+// PsyncLog returns every PSYNC request seen so far with its answer.
+func (src *Source) PsyncLog() []PsyncEvent {
+	src.mu.Lock()
+	defer src.mu.Unlock()
+	return append([]PsyncEvent{}, src.log...)
+}
+
+// Acks returns the newest REPLCONF ACK per replica connection.
+func (src *Source) Acks() []AckEvent {
+	src.mu.Lock()
+	defer src.mu.Unlock()
+	out := make([]AckEvent, 0, len(src.acks))
+	for _, a := range src.acks {
+		out = append(out, *a)
+	}
+	return out
+}
+
+// Replicas returns the number of attached replica connections.
+func (src *Source) Replicas() int {
+	src.mu.Lock()
+	defer src.mu.Unlock()
+	return len(src.replicas)
+}
+
+// PayloadSent returns the total number of payload bytes (snapshot + stream) written to replicas.
+func (src *Source) PayloadSent() int64 {
+	src.mu.Lock()
+	defer src.mu.Unlock()
+	return src.sentAll
+}
+
+// DropReplicaAfter injects a connection drop: the attached replica connections are closed after
+// n more payload bytes (snapshot + stream bytes, not counting the reply line / "$len" header)
+// have been written to them; when no replica is attached the next one to attach is closed after
+// n payload bytes.  One-shot.
+func (src *Source) DropReplicaAfter(n int64) {
+	src.mu.Lock()
+	defer src.mu.Unlock()
+	if len(src.replicas) == 0 {
+		src.armDrop = n
+		return
+	}
+	for _, r := range src.replicas {
+		r.dropAt = r.sent + n
+		if n <= 0 {
+			r.dropNow = true
+		}
+	}
+	src.broadcastLocked()
+}
+
+// DropReplicas closes every attached replica connection now.
+func (src *Source) DropReplicas() {
+	src.mu.Lock()
+	src.dropAllLocked()
+	src.broadcastLocked()
+	src.mu.Unlock()
+}
+
+// info writes the replication fields of INFO (called with the server lock held).
+func (src *Source) info(b *bytes.Buffer) {
+	src.mu.Lock()
+	defer src.mu.Unlock()
+	active, first, histlen := 1, src.backlogOff, src.mro-src.backlogOff+1
+	if src.noBacklog {
+		active, first, histlen = 0, 0, 0
+	}
+	fmt.Fprintf(b, "master_failover_state:no-failover\r\nmaster_replid:%s\r\nmaster_replid2:%s\r\nmaster_repl_offset:%d\r\nsecond_repl_offset:%d\r\n"+
+		"repl_backlog_active:%d\r\nrepl_backlog_size:1048576\r\nrepl_backlog_first_byte_offset:%d\r\nrepl_backlog_histlen:%d\r\n",
+		src.replid, src.replid2, src.mro, src.secondOff, active, first, histlen)
+}
+
+func (s *Server) unknownCommand(c *conn, req *Req) (Reply, action) {
+	// what dispatchLocked does for a command it does not know (the standalone double without the
+	// source role keeps exactly that behaviour for PSYNC / REPLCONF)
+	if s.opt.Permissive {
+		s.logApp(c, req.Cmd, req.Args, req.Seq, req.Seq, 0, 0, OK, true, req.AtMs)
+		return OK, actNone
+	}
+	req.Kind = ReqRejected
+	return Err(fmt.Sprintf("ERR unknown command '%s', with args beginning with: ", strings.ToLower(req.Cmd))), actNone
+}
+
+func init() {
+	regConn("REPLCONF", -1, cmdReplconf)
+	regConn("PSYNC", -1, cmdPsync)
+}
+
+func (src *Source) connInfoLocked(c *conn) *replConnInfo {
+	ci := src.conns[c]
+	if ci == nil {
+		ci = &replConnInfo{}
+		src.conns[c] = ci
+	}
+	return ci
+}
+
+// cmdReplconf: REPLCONF <option> <value> ... as replconfCommand (replication.c).
+func cmdReplconf(s *Server, c *conn, req *Req) (Reply, action) {
+	src := s.source
+	if src == nil {
+		return s.unknownCommand(c, req)
+	}
+	if len(req.Args)%2 != 0 || len(req.Args) == 0 {
+		return syntaxErr, actNone
+	}
+	src.mu.Lock()
+	defer src.mu.Unlock()
+	ci := src.connInfoLocked(c)
+	for i := 0; i < len(req.Args); i += 2 {
+		opt, val := strings.ToLower(string(req.Args[i])), string(req.Args[i+1])
+		switch opt {
+		case "listening-port":
+			if _, err := strconv.Atoi(val); err != nil {
+				return notInt, actNone
+			}
+			ci.listeningPort = val
+		case "ip-address":
+		case "capa":
+			switch strings.ToLower(val) {
+			case "eof":
+				ci.capaEOF = true
+			case "psync2":
+				ci.capaPsync2 = true
+			}
+		case "ack":
+			off, err := strconv.ParseInt(val, 10, 64)
+			if err != nil {
+				return noReply, actNone
+			}
+			src.ackLocked(c.id, off)
+			return noReply, actNone
+		case "getack":
+			// only meaningful from a master to its replica; a master ignores it
+			return noReply, actNone
+		case "rdb-only", "rdb-filter-only", "version":
+		default:
+			return Err("ERR Unrecognized REPLCONF option: " + string(req.Args[i])), actNone
+		}
+	}
+	return OK, actNone
+}
+
+func (src *Source) ackLocked(connID, off int64) {
+	a := src.acks[connID]
+	if a == nil {
+		a = &AckEvent{Conn: connID}
+		src.acks[connID] = a
+	}
+	a.Offset = off
+	a.Count++
+}
+
+// cmdPsync: PSYNC <replid> <offset>, decided as syncCommand / masterTryPartialResynchronization do.
+func cmdPsync(s *Server, c *conn, req *Req) (Reply, action) {
+	src := s.source
+	if src == nil {
+		return s.unknownCommand(c, req)
+	}
+	if len(req.Args) != 2 {
+		return Err("ERR wrong number of arguments for 'psync' command"), actNone
+	}
+	src.mu.Lock()
+	defer src.mu.Unlock()
+	ci := src.connInfoLocked(c)
+	id, raw := string(req.Args[0]), string(req.Args[1])
+	ev := PsyncEvent{Idx: len(src.log), ReqSeq: req.Seq, Conn: c.id, ReplID: id, RawOffset: raw, Offset: -1, CapaPsync2: ci.capaPsync2,
+		MasterReplID: src.replid, MasterReplID2: src.replid2, SecondReplidOffset: src.secondOff, MasterReplOffset: src.mro,
+		BacklogOff: src.backlogOff, BacklogHistLen: src.mro - src.backlogOff + 1}
+	if src.noBacklog {
+		ev.BacklogOff, ev.BacklogHistLen = 0, 0
+	}
+	if src.stamp != nil {
+		ev.Stamp = src.stamp()
+	}
+	off, err := strconv.ParseInt(raw, 10, 64)
+	histlen := src.mro - src.backlogOff + 1
+	switch {
+	case err != nil:
+		ev.Reason = "bad-offset"
+	case !strings.EqualFold(id, src.replid) && !strings.EqualFold(id, src.replid2):
+		ev.Offset = off
+		ev.Reason = "replid-unknown"
+	case !strings.EqualFold(id, src.replid) && off > src.secondOff:
+		ev.Offset = off
+		ev.Reason = "replid2-beyond-second-offset"
+	case src.noBacklog:
+		ev.Offset = off
+		ev.Reason = "no-backlog"
+	case off < src.backlogOff:
+		ev.Offset = off
+		ev.Reason = "offset-before-backlog"
+	case off > src.backlogOff+histlen:
+		ev.Offset = off
+		ev.Reason = "offset-after-backlog"
+	default:
+		ev.Offset = off
+		ev.Reason = "ok"
+		ev.Continue = true
+	}
+	sess := &replSess{c: c, epoch: src.epoch, dropAt: -1, eventIdx: ev.Idx, hbReply: src.hbReply}
+	if ev.Continue {
+		// Redis >= 4: "+CONTINUE <replid>" for replicas that announced capa psync2
+		if ci.capaPsync2 {
+			ev.Reply = "CONTINUE " + src.replid
+		} else {
+			ev.Reply = "CONTINUE"
+		}
+		sess.next = off
+	} else {
+		ev.Reply = fmt.Sprintf("FULLRESYNC %s %d", src.replid, src.mro)
+		sess.full = true
+		sess.hbRDB = src.hbRDB
+		if src.rdbFunc != nil {
+			sess.rdb = src.rdbFunc(src.mro)
+		} else {
+			sess.rdb = src.rdb
+		}
+		if sess.rdb == nil {
+			panic("fakeredis: source has no snapshot to serve (SourceConfig.RDB / RDBFunc)")
+		}
+		ev.RDBLen = len(sess.rdb)
+		sess.next = src.mro + 1
+	}
+	ev.StartAt = sess.next
+	sess.line = ev.Reply
+	if src.armDrop >= 0 {
+		sess.dropAt = src.armDrop
+		if src.armDrop == 0 {
+			sess.dropNow = true
+		}
+		src.armDrop = -1
+	}
+	src.log = append(src.log, ev)
+	src.pending[c] = sess
+	c.repl = true
+	return Status(ev.Reply), actReplStream
+}
+
+// serveReplica owns the connection after a PSYNC: it writes the answer, the snapshot (full
+// resync) and then the stream from the agreed offset, live bytes included, until the connection
+// drops; REPLCONF ACKs sent by the replica are recorded.
 func (src *Source) serveReplica(c *conn, rd *bufio.Reader, wr *bufio.Writer, first Reply) {
+	src.mu.Lock()
+	sess := src.pending[c]
+	delete(src.pending, c)
+	if sess != nil {
+		src.replicas[c] = sess
+	}
+	src.mu.Unlock()
+	if sess == nil {
+		return
+	}
+	readerDone := make(chan struct{})
+	go func() {
+		defer close(readerDone)
+		for {
+			args, err := readRequest(rd)
+			if err != nil {
+				return
+			}
+			if len(args) >= 3 && strings.EqualFold(string(args[0]), "REPLCONF") && strings.EqualFold(string(args[1]), "ACK") {
+				if off, err := strconv.ParseInt(string(args[2]), 10, 64); err == nil {
+					src.mu.Lock()
+					src.ackLocked(c.id, off)
+					src.mu.Unlock()
+				}
+			}
+			// anything else a replica says on its replication link is ignored, as a master does
+		}
+	}()
+	defer func() {
+		src.mu.Lock()
+		delete(src.replicas, c)
+		delete(src.conns, c)
+		src.mu.Unlock()
+		src.srv.closeConn(c)
+		<-readerDone
+	}()
+
+	write := func(b []byte) bool {
+		if _, err := wr.Write(b); err != nil {
+			return false
+		}
+		return wr.Flush() == nil
+	}
+	// payload: bytes that count for DropReplicaAfter; returns false when the connection must end
+	payload := func(b []byte) bool {
+		for len(b) > 0 {
+			src.mu.Lock()
+			if sess.dropNow || src.stopped || sess.epoch != src.epoch {
+				src.mu.Unlock()
+				return false
+			}
+			n := int64(len(b))
+			if n > 16*1024 {
+				n = 16 * 1024
+			}
+			if sess.dropAt >= 0 && sess.sent+n > sess.dropAt {
+				n = sess.dropAt - sess.sent
+			}
+			src.mu.Unlock()
+			if n > 0 {
+				if !write(b[:n]) {
+					return false
+				}
+				b = b[n:]
+			}
+			src.mu.Lock()
+			sess.sent += n
+			src.sentAll += n
+			hit := sess.dropAt >= 0 && sess.sent >= sess.dropAt
+			src.mu.Unlock()
+			if hit {
+				return false
+			}
+		}
+		return true
+	}
+
+	for i := 0; i < sess.hbReply; i++ {
+		if !write([]byte("\n")) {
+			return
+		}
+	}
+	if !write([]byte("+" + sess.line + "\r\n")) {
+		return
+	}
+	if sess.full {
+		for i := 0; i < sess.hbRDB; i++ {
+			if !write([]byte("\n")) {
+				return
+			}
+		}
+		if !write([]byte(fmt.Sprintf("$%d\r\n", len(sess.rdb)))) {
+			return
+		}
+		if !payload(sess.rdb) { // no trailing CRLF after the snapshot
+			return
+		}
+	}
+	for {
+		src.mu.Lock()
+		if sess.dropNow || src.stopped || sess.epoch != src.epoch {
+			src.mu.Unlock()
+			return
+		}
+		var chunk []byte
+		if sess.next <= src.mro {
+			if sess.next < src.histOff {
+				src.mu.Unlock()
+				return // cannot happen: admission guarantees next >= backlog_off >= histOff
+			}
+			chunk = append(chunk, src.hist[sess.next-src.histOff:]...)
+		}
+		wake := src.wake
+		src.mu.Unlock()
+		if len(chunk) == 0 {
+			select {
+			case <-wake:
+			case <-readerDone:
+				return
+			}
+			continue
+		}
+		if !payload(chunk) {
+			return
+		}
+		sess.next += int64(len(chunk))
+	}
 }
